@@ -69,6 +69,7 @@ type Safety struct {
 	confs        map[string]*ConfInfo
 	confHist     map[string][]*ConfInfo
 	confTimes    map[string][]confAt
+	pendingLease []pendingLease
 	grants       map[string]map[string]bool // "candidate/term" -> voters whose granted real vote reached it
 	pendingElect []electRec
 
@@ -338,6 +339,7 @@ func (s *Safety) On(e *Event) []Violation {
 		s.onSnapFile(e)
 	case "action":
 		s.logMatching(e.Seq)
+		s.judgePendingLease()
 	case "fault":
 		if e.Fault.What == "start" {
 			// a restart of the same instance also starts a new life: commit/applied index are volatile
@@ -671,55 +673,66 @@ func (s *Safety) onHandled(e *Event) {
 	delete(s.lastAtDel, m.ID)
 }
 
+type pendingLease struct {
+	node string
+	vt   int64
+	seq  int
+}
+
+// leaseFresh: did a voting member answer node within the lease duration before vt? The
+// configurations the node held around that window count (as observed; one older observation and
+// every later one are included because observations lag the change): a node that was the only
+// voter of one of them renewed its lease on its own, legitimately, and a reply counts if its
+// sender was a voter in any of them (the configuration may have changed since).
+func (s *Safety) leaseFresh(node string, vt int64) bool {
+	cts := s.confTimes[node]
+	if len(cts) == 0 {
+		return true
+	}
+	wasVoter := map[string]bool{}
+	older := 0
+	for k := len(cts) - 1; k >= 0; k-- {
+		if cts[k].voters <= 1 {
+			return true
+		}
+		for id, v := range cts[k].conf.Members {
+			if v {
+				wasVoter[id] = true
+			}
+		}
+		if cts[k].vt <= vt-s.ld {
+			if older++; older == 2 {
+				break
+			}
+		}
+	}
+	rs := s.replies[node]
+	for k := len(rs) - 1; k >= 0 && rs[k].vt > vt-s.ld; k-- {
+		if rs[k].vt <= vt && wasVoter[rs[k].from] {
+			return true
+		}
+	}
+	return false
+}
+
+func (s *Safety) judgePendingLease() {
+	for _, p := range s.pendingLease {
+		if !s.leaseFresh(p.node, p.vt) {
+			s.v("C17", "C17/lease-read-without-fresh-voter-contact", fmt.Sprintf("%s served a lease-based read at virtual time %dus although no voting member had answered it during the preceding lease duration (%dms)", p.node, p.vt/1000, s.ld/1e6), p.seq)
+		}
+	}
+	s.pendingLease = nil
+}
+
 func (s *Safety) onApply(e *Event) {
 	a := e.Apply
 	if a.Read && a.RType == 2 && s.ld > 0 {
 		// a lease-based read is being served: some voter must have answered this node within the
-		// last lease duration (necessary for any correct lease)
-		cf := s.confs[e.Node]
-		voters := 0
-		if cf != nil {
-			for _, v := range cf.Members {
-				if v {
-					voters++
-				}
-			}
-		}
-		// the configurations this node held during the preceding lease duration (as observed; one
-		// older observation is included because observations lag the change): a node that was the
-		// only voter of one of them renewed its lease on its own, legitimately, and a reply counts if
-		// its sender was a voter in any of them (the configuration may have changed since)
-		alone := false
-		wasVoter := map[string]bool{}
-		cts := s.confTimes[e.Node]
-		older := 0
-		for k := len(cts) - 1; k >= 0; k-- {
-			if cts[k].voters <= 1 {
-				alone = true
-			}
-			for id, v := range cts[k].conf.Members {
-				if v {
-					wasVoter[id] = true
-				}
-			}
-			if cts[k].vt <= e.VT-s.ld {
-				if older++; older == 2 {
-					break
-				}
-			}
-		}
-		if cf != nil && voters > 1 && !alone {
-			fresh := false
-			rs := s.replies[e.Node]
-			for k := len(rs) - 1; k >= 0 && rs[k].vt > e.VT-s.ld; k-- {
-				if cf.Members[rs[k].from] || wasVoter[rs[k].from] {
-					fresh = true
-					break
-				}
-			}
-			if !fresh {
-				s.v("C17", "C17/lease-read-without-fresh-voter-contact", fmt.Sprintf("%s served a lease-based read at virtual time %dus although no voting member had answered it during the preceding lease duration (%dms)", e.Node, e.VT/1000, s.ld/1e6), e.Seq)
-			}
+		// last lease duration (necessary for any correct lease). Configurations are observed at the
+		// quiescence point after a step, i.e. after the applications that the step caused, so the
+		// verdict is taken at the next action (or at the end of the case).
+		if !s.leaseFresh(e.Node, e.VT) {
+			s.pendingLease = append(s.pendingLease, pendingLease{e.Node, e.VT, e.Seq})
 		}
 	}
 	if a.Read || a.Begin {
@@ -913,6 +926,7 @@ func (s *Safety) logMatching(seq int) {
 // authoritative order).
 func (s *Safety) Finish() []Violation {
 	s.logMatching(0)
+	s.judgePendingLease()
 	// every leader was elected by a strict majority of the voters of a configuration it was in
 	// (itself plus the voters whose granted vote reached it); non-voters never count
 	for _, el := range s.pendingElect {
